@@ -848,6 +848,50 @@ func isSafeForMultilineReverseSuffix(re *syntax.Regexp) bool {
 	}
 }
 
+// containsEndText reports whether re contains \z (or $ without (?m)) anywhere.
+func containsEndText(re *syntax.Regexp) bool {
+	if re.Op == syntax.OpEndText {
+		return true
+	}
+	for _, sub := range re.Sub {
+		if containsEndText(sub) {
+			return true
+		}
+	}
+	return false
+}
+
+// endTextOnlyAtEnd reports whether every \z in re is the last element of a
+// match: the final element of the top-level concatenation, looking through
+// groups and alternation branches.
+func endTextOnlyAtEnd(re *syntax.Regexp) bool {
+	switch re.Op {
+	case syntax.OpEndText:
+		return true
+	case syntax.OpCapture:
+		return endTextOnlyAtEnd(re.Sub[0])
+	case syntax.OpAlternate:
+		for _, sub := range re.Sub {
+			if !endTextOnlyAtEnd(sub) {
+				return false
+			}
+		}
+		return true
+	case syntax.OpConcat:
+		for i, sub := range re.Sub {
+			if i == len(re.Sub)-1 {
+				return endTextOnlyAtEnd(sub)
+			}
+			if containsEndText(sub) {
+				return false
+			}
+		}
+		return true
+	default:
+		return !containsEndText(re)
+	}
+}
+
 // hasAssertionOtherThanEndText reports whether re contains \b, \B, ^, (?m)$ or
 // \A anywhere. The reversed automaton of the reverse-anchored search follows
 // assertions as plain epsilons; only the final \z is accounted for (the scan
@@ -1553,7 +1597,17 @@ func SelectStrategy(n *nfa.NFA, re *syntax.Regexp, literals *literal.Seq, config
 	// Patterns like `\d+\.\d+\.\d+` (14 NFA states) benefit more from
 	// DigitPrefilter than DFA because SIMD digit scanning skips
 	// non-digit regions entirely.
-	if shouldUseDigitPrefilter(re, nfaSize, config) {
+	// An end-of-text assertion that is not the last thing a match passes
+	// ((a$)+, a?\zc$|c) is only resolved by the lazy DFA at the end of its
+	// scan: the DFA-based strategies below reported matches that continue past
+	// it. The NFA simulation evaluates it where it stands.
+	if !endTextOnlyAtEnd(re) {
+		return UseNFA
+	}
+
+	// The digit prefilter verifies candidates with an anchored DFA scan, which
+	// loses the context of a trailing \b/\B (\d{2,}[b-c]{2,}\B ended early).
+	if !hasWordBoundary(re) && shouldUseDigitPrefilter(re, nfaSize, config) {
 		return UseDigitPrefilter
 	}
 
